@@ -168,7 +168,26 @@ def build_harness(release=False, parallel=True):
     return True, "ok"
 
 
-def build_all(release=False, nopar=False):
+HARNESS_SD = os.path.join(VERIF, "harness_sd")
+SD_BIN = os.path.join(TARGET, "debug", "shred_verif_sd")
+
+
+def build_harness_sd():
+    """the generated system-data crate (suite S4): regenerate gen.rs, cargo build against /repo"""
+    import gen_sysdata
+    gen_sysdata.main()
+    lock_src = os.path.join(REPO, "Cargo.lock")
+    lock_dst = os.path.join(HARNESS_SD, "Cargo.lock")
+    if not os.path.exists(lock_dst) and os.path.exists(lock_src):
+        shutil.copy(lock_src, lock_dst)
+    rc, out, err = run(["cargo", "build", "--offline"], cwd=HARNESS_SD, timeout=1800)
+    if rc != 0:
+        lines = [l for l in err.splitlines() if not l.startswith("warning")]
+        return False, "\n".join(lines)[-4000:]
+    return True, "ok"
+
+
+def build_all(release=False, nopar=False, sd=False):
     """returns dict of component -> (ok, message)"""
     res = {}
     with Lock("build"):
@@ -180,6 +199,8 @@ def build_all(release=False, nopar=False):
             res["harness-release"] = build_harness(True, True)
         if nopar and res["harness"][0]:
             res["harness-nopar"] = build_harness(False, False)
+        if sd:
+            res["harness-sd"] = build_harness_sd()
         res["time"] = time.time() - t
     return res
 
